@@ -24,6 +24,10 @@ def check(prog, run):
     run.rule("O-hom", "no degree-mixing operation in SD_est", 1)
     run.rule("R-pairing", "every csd call pairs Yall (channel axis first, unit second axis) as FIRST operand with Yref (unit first axis) as second", 4)
     run.rule("R-param", "pov -> noverlap = nxseg*pov, nxseg -> nperseg, window 'hann', fs = 1/dt in the 'per' branch", 4)
+    run.rule("R-stateless", "the estimators change no module-level table in place: the estimate of one call does not depend on the options of the calls before it", 2)
+    from ..effects import shared_state_rule
+    reach_ = sorted(q for q in prog.reachable([prog.func(FN).qual, prog.func("functions.fdd.SD_PreGER").qual]) if q in prog.functions and not q.startswith("pyoma2.functions.plot"))
+    shared_state_rule(prog, run, "R-stateless", reach_, "the estimate depends on which estimator was used in the calls before")
     I = Interp(prog)
     fn = I.fn(FN)
     seen = set()
@@ -47,12 +51,7 @@ def check(prog, run):
     cor_grid(prog, run, fi, f)
     # the single-setup run methods hand their run parameters to the estimator
     n_callers = 0
-    for ci in prog.classes.values():
-        if not ci.mod.startswith("pyoma2.algorithms"):
-            continue
-        m = ci.methods.get("run")
-        if m is None:
-            continue
+    for ci, m in prog.class_methods("pyoma2.algorithms", "run"):
         res = astq.handover(prog, m, fi.qual, {"nxseg": {"self.run_params.nxseg"}, "method": {"self.run_params.method_SD"},
                                                 "pov": {"self.run_params.pov"}, "dt": {"self.dt", "1 / self.fs"}})
         for c, p_, ok, detail in res:
@@ -100,7 +99,7 @@ def pairing(prog, run, fi, f):
     # judged per estimator (the two methods may share one csd call site or have one each)
     sites = []
     for meth in ("per", "cor"):
-        pf = astq.PrunedFn(fi, {mpar: meth}) if mpar is not None else fi
+        pf = astq.PrunedFn(fi, {mpar: meth}, subst=True) if mpar is not None else fi
         found = [c for c, nm in astq.calls_resolved(prog, pf, lambda n: n == "scipy.signal.csd")]
         if not found:
             run.ob("R-pairing", fi.qual, "csd", False, f"no scipy.signal.csd call in SD_est for method '{meth}'", witness="missing", file=f, config=f"method={meth}")
@@ -123,6 +122,8 @@ def pairing(prog, run, fi, f):
         run.ob("R-pairing", fi.qual, "first operand (conjugated) derives from Yall, second from Yref", ok,
                f"x <- {a[0]}, y <- {b[0]}", witness=f"x<-{a[0]},y<-{b[0]}", file=f, node=c, config=cfg)
         ok = a[1] == 1 and a[2] == 0 and b[1] == 0 and b[2] == 1
+        if not ok and a[1] == 1 and b[1] == 0 and (a[2] is None or b[2] is None) and a[2] in (0, None) and b[2] in (1, None):
+            ok = None           # unit axes as required, a channel axis could not be identified (its length is not traced to shape[0])
         run.ob("R-pairing", fi.qual, "broadcast axes give (n_all, n_ref, f)", ok,
                f"x: unit axis {a[1]}, channel axis {a[2]}; y: unit axis {b[1]}, channel axis {b[2]}",
                witness=f"x:{a[1]}/{a[2]} y:{b[1]}/{b[2]}", file=f, node=c, config=cfg)
@@ -182,7 +183,7 @@ def cor_chain(prog, run):
     fi = prog.func(FN)
     f = rel(prog.mods[fi.mod].path)
     pos, _, _, _ = astq.params_of(fi.node)
-    pf = astq.PrunedFn(fi, {pos[4]: "cor"})
+    pf = astq.PrunedFn(fi, {pos[4]: "cor"}, subst=True)
     rets = [n for n in ast.walk(pf.node) if isinstance(n, ast.Return) and isinstance(n.value, ast.Tuple)]
     if not rets:
         run.ob("R-cor-chain", fi.qual, "return", None, "no tuple return on the 'cor' path", file=f)
@@ -212,6 +213,8 @@ def cor_chain(prog, run):
         nps = astq.kwarg(c, "nperseg")
         okk = isinstance(w, ast.Constant) and w.value == "boxcar" and isinstance(nov, ast.Constant) and nov.value == 0 and nfft is not None and nfft == P.s("nxseg") \
             and nps is not None and astq.src(nps).replace(" ", "") in ("nxseg//2", "int(nxseg/2)")
+        if not okk and astq.kwargs_open(c) and None in (w, nov, nps):
+            okk = None          # the options travel through `**...`: what is not written at the call is not known to be absent
         run.ob("R-cor-chain", fi.qual, "raw periodogram: boxcar window, no overlap, segments of nxseg/2 zero-padded to nxseg", okk,
                f"window={astq.src(w) if w is not None else None}, noverlap={astq.src(nov) if nov is not None else None}, nfft={nfft!r}, nperseg={astq.src(nps) if nps is not None else None}",
                witness=f"{astq.src(w) if w is not None else None}/{astq.src(nov) if nov is not None else None}/{nfft!r}", file=f, node=c)
